@@ -30,6 +30,32 @@ theorem random_guards_pinned : Irismod.Gen.PureRandom.guards =
      "Keeper.RequestService: provider, err := sdk.AccAddressFromBech32(bindings[prng.Intn(len(bindings))].Provider); err != nil",
      "msgServer.RequestRandom: request, err := m.Keeper.RequestRandom( ctx, consumer, msg.BlockInterval, msg.Oracle, msg.ServiceFeeCap, ); err != nil"] := rfl
 
+/-- every statement of these functions executed for its effect — a call whose result is dropped (store and bank
+writes, queue moves, hooks) or a write to a record field — with its nesting depth, in source order: a write that is
+dropped, duplicated, reordered or moved into or out of a branch breaks this -/
+theorem random_effects_pinned : Irismod.Gen.PureRandom.effects =
+    ["BeginBlocker: d0 rqIterator.Next()",
+     "BeginBlocker: d1 k.GetCdc().MustUnmarshal(rqIterator.Value(), &request)",
+     "BeginBlocker: d3 k.SetOracleRandRequest(ctx, serviceContextID, request)",
+     "BeginBlocker: d2 k.DequeueRandomRequest(ctx, lastBlockHeight, reqID)",
+     "BeginBlocker: d2 k.SetRandom(ctx, reqID, types.NewRandom(request.TxHash, lastBlockHeight, random.FloatString(types.RandPrec)))",
+     "BeginBlocker: d2 k.DequeueRandomRequest(ctx, lastBlockHeight, reqID)",
+     "Keeper.SetRandom: d0 store.Set(types.KeyRandom(reqID), bz)",
+     "Keeper.EnqueueRandomRequest: d0 store.Set(types.KeyRandomRequestQueue(height, reqID), bz)",
+     "Keeper.DequeueRandomRequest: d0 store.Delete(types.KeyRandomRequestQueue(height, reqID))",
+     "Keeper.SetOracleRandRequest: d0 store.Set(types.KeyOracleRandomRequest(requestContextID), bz)",
+     "Keeper.DeleteOracleRandRequest: d0 store.Delete(types.KeyOracleRandomRequest(requestContextID))",
+     "Keeper.RequestRandom: d0 k.EnqueueRandomRequest(ctx, destHeight, reqID, request)",
+     "Keeper.RequestService: d0 iterator.Next()",
+     "Keeper.RequestService: d1 k.cdc.MustUnmarshal(iterator.Value(), &binding)",
+     "Keeper.HandlerResponse: d1 k.DeleteOracleRandRequest(ctx, requestContextID)",
+     "Keeper.HandlerResponse: d1 k.DeleteOracleRandRequest(ctx, requestContextID)",
+     "Keeper.HandlerResponse: d1 k.DeleteOracleRandRequest(ctx, requestContextID)",
+     "Keeper.HandlerResponse: d1 k.DeleteOracleRandRequest(ctx, requestContextID)",
+     "Keeper.HandlerResponse: d0 k.SetRandom( ctx, reqID, types.NewRandom(request.TxHash, lastBlockHeight, random.FloatString(types.RandPrec)), )",
+     "Keeper.HandlerResponse: d0 k.DeleteOracleRandRequest(ctx, requestContextID)",
+     "Keeper.HandlerStateChanged: d0 k.DeleteOracleRandRequest(ctx, requestContextID)"] := rfl
+
 /-- the seed sum of `GetRand`, composed from the translated assignments in source order (`hBH`, `hTI`, `hOS`: the
 digests of block hash, initiator and oracle seed as integers) -/
 def seedSum (t hBH hTI hOS : Int) (oracle : Bool) : Option Int :=
